@@ -23,15 +23,17 @@ ASSUMPTIONS = [
 ]
 TECHNIQUE = "metamorphic testing (rename / permute / prefix) over Hypothesis-generated problems with cross-pinning of schedules"
 
-PROFILE = S.profile(min_tasks=2, max_tasks=4, p_resources=70, task_constraints=(0, 2), optional_rules=(0, 1), resource_constraints=(0, 2), buffers=(0, 1),
+PROFILE = S.profile(cond_mandatory_only=True, min_tasks=2, max_tasks=4, p_resources=70, task_constraints=(0, 2), optional_rules=(0, 1), resource_constraints=(0, 2), buffers=(0, 1),
                     indicators=(0, 1), objectives=(0, 1), p_optional=40, p_work_amount=15, p_cumulative=35)
 # strata: (a) workers shared between direct assignments of optional tasks and selections, under sorting constraints (parking
 # instants); (b) start-time objectives over optional tasks
-PROFILE_PARK = S.profile(min_tasks=2, max_tasks=4, horizon=(3, 7), p_resources=100, n_workers=(2, 3), p_select=70, p_cumulative=10, task_constraints=(0, 1), optional_rules=(0, 0),
+PROFILE_PARK = S.profile(cond_mandatory_only=True, min_tasks=2, max_tasks=4, horizon=(3, 7), p_resources=100, n_workers=(2, 3), p_select=70, p_cumulative=10, task_constraints=(0, 1), optional_rules=(0, 0),
                          resource_constraints=(1, 2), focus=["ResourceNonDelay", "ResourceTasksDistance"], p_optional=65, p_work_amount=5)
-PROFILE_STARTOBJ = S.profile(min_tasks=2, max_tasks=4, horizon=(3, 7), p_no_horizon=0, p_resources=40, task_constraints=(0, 2), optional_rules=(0, 1), resource_constraints=(0, 0),
+PROFILE_STARTOBJ = S.profile(cond_mandatory_only=True, min_tasks=2, max_tasks=4, horizon=(3, 7), p_no_horizon=0, p_resources=40, task_constraints=(0, 2), optional_rules=(0, 1), resource_constraints=(0, 0),
                              objectives=(1, 1), only_objectives=["TasksStartLatest", "MinimizeGreatestStartTime"], p_optional=65)
-PREFIX_PROFILE = S.profile(min_tasks=1, max_tasks=3, p_resources=60, task_constraints=(0, 1), optional_rules=(0, 0), resource_constraints=(0, 1), objectives=(0, 1), p_optional=40)
+PROFILE_WINDOWS = S.profile(cond_mandatory_only=True, min_tasks=2, max_tasks=4, horizon=(3, 7), p_resources=100, n_workers=(2, 3), p_select=15, p_cumulative=10, task_constraints=(0, 1), optional_rules=(0, 0),
+                            resource_constraints=(2, 3), focus=["WorkLoad", "ResourceUnavailable"], exclude=("SameWorkers", "DistinctWorkers"), objectives=(0, 1), p_optional=25, p_work_amount=5, p_reuse_window=75)
+PREFIX_PROFILE = S.profile(cond_mandatory_only=True, min_tasks=1, max_tasks=3, p_resources=60, task_constraints=(0, 1), optional_rules=(0, 0), resource_constraints=(0, 1), objectives=(0, 1), p_optional=40)
 NAME_POOL = ["a", "b", "x", "t", "A1", "Task", "task_1", "task_2", "W", "worker", "Ωmega", "tâche", "name with space", "a.b", "x_start", "x_end", "q" * 24,
              "T1", "T2", "T3", "W1", "W2", "K1", "S1", "B1", "c1", "z_busy", "_lead", "n-1", "0", "17", "Selected", "horizon2"]
 
@@ -68,6 +70,8 @@ def _res_name(n, m):
 
 
 def _ren_constraint(c, m):
+    if "ref" in c:
+        return dict(c)
     if "op" in c:
         return _ren_expr(c, m)
     out = dict(c)
@@ -310,7 +314,9 @@ def prop(ctx, case):
                 viol("optimisation_raised", repr(exc))
                 return
             ctx.evaluation()
-            if va != vb:
+            if va is None or vb is None:
+                ctx.inconclusive += 1  # one optimisation gave up (z3 'unknown'): both verdicts were 'sat' above
+            elif va != vb:
                 viol("optima_differ", {"original": va, "twin": vb})
                 return
     if (moved_names >= 2 or moved_perm >= 1) and n_cross >= 1 and (any(t["optional"] for t in spec["tasks"]) or spec["selects"] or spec["cumulative"]):
@@ -326,6 +332,7 @@ def run_shard(ctx):
     run_hypothesis(ctx, cases(), prop, max_examples=n)
     run_hypothesis(ctx, cases(PROFILE_PARK), prop, max_examples=n // 2)
     run_hypothesis(ctx, cases(PROFILE_STARTOBJ), prop, max_examples=n // 2)
+    run_hypothesis(ctx, cases(PROFILE_WINDOWS), prop, max_examples=n)
 
 
 def replay(record):
